@@ -104,10 +104,23 @@ def Edge.ends : Edge E → Nat × Nat
   | .odo i j _ _ => (i, j)
   | .lm i j _ _ _ => (i, j)
 
+def Edge.info : Edge E → Nat → Nat → E
+  | .odo _ _ _ info => info
+  | .lm _ _ _ _ info => info
+
 def linearise (s : GState E) (e : Edge E) : Option (EdgeLin E) :=
   match s[e.ends.1]?, s[e.ends.2]? with
   | some (g0, _, p0), some (g1, _, p1) => lineariseAt g0 g1 p0 p1 e
   | _, _ => none
+
+/-- `Graph._initialize`, first half: gradient indices are the running sums of the compact dimensions, in list order -/
+def initState : Nat → List (Pose E) → GState E
+  | _, [] => []
+  | g, p :: ps => (g, p.cdim, p) :: initState (g + p.cdim) ps
+
+/-- `id_index_dict = {v.id: i for i, v in enumerate(vertices)}` then `id_index_dict[v_id]`: the *last* vertex carrying the id -/
+def indexOfId (ids : List Int) (x : Int) : Option Nat :=
+  (ids.zipIdx.foldl (fun acc (p : Int × Nat) => if p.1 = x then some p.2 else acc) none)
 
 def allSome {α : Type} : List (Option α) → Option (List α)
   | [] => some []
